@@ -462,7 +462,7 @@ def rule_E2(ctx, R):
                     byres = {x.get("result"): x for x in p.events if x["k"] == "CALL"}
                     hops = 0
                     while cand[0] == "op" and cand[1] in byres and hops < 6 and \
-                            byres[cand[1]]["def"].split("::")[-1] in ("iter", "enumerate", "into_iter", "deref"):
+                            byres[cand[1]]["def"].split("::")[-1] in ("iter", "enumerate", "into_iter", "deref", "rev", "copied", "cloned"):
                         cand = byres[cand[1]]["argv"][0]
                         hops += 1
                     if cand[0] == "op" and cand[1] in prims:
@@ -495,7 +495,7 @@ def rule_E2(ctx, R):
                 # unlock loops: plain for over the list, REL on each element
                 anyrel = any(p.ev("REL") for p in paths)
                 others = [e["def"] for p in paths for e in _calls(p) if e.get("base") not in ITER_OK
-                          and e["def"].split("::")[-1] not in ("iter", "for_each", "deref", "into_iter")]
+                          and e["def"].split("::")[-1] not in ("iter", "for_each", "deref", "into_iter", "rev", "copied", "cloned")]
                 if not anyrel:
                     bad = "release op releases nothing"
                 elif others:
